@@ -74,7 +74,7 @@ impl Case {
     /// the conversation realising this case (not serialised: it contains the big literals)
     fn build(&self) -> Option<(Conversation, usize)> {
         let small_cols = |n: usize| -> Vec<ColSpec> { (0..n).map(|i| ColSpec::simple(&format!("c{}", i), T_BLOB, 0)).collect() };
-        let small_row = |n: usize, k: usize| RowProg { cells: (0..n).map(|i| Val::plain(Base::Slice(vec![b'a' + ((i + k) % 26) as u8; 3]))).collect(), form: RowForm::WriteRow };
+        let small_row = |n: usize, k: usize| RowProg { cells: (0..n).map(|i| Val::plain(Base::Slice(vec![b'a' + ((i + k) % 26) as u8; 3]))).collect(), form: RowForm::WriteRow, offers: vec![] };
         let (cmd, prog, big_len): (Cmd, Program, usize) = match &self.assembly {
             Assembly::TextRow { cells } | Assembly::BinRow { cells } => {
                 let bin = matches!(self.assembly, Assembly::BinRow { .. });
@@ -139,6 +139,7 @@ impl Case {
                         1 => RowForm::Cols,
                         _ => RowForm::ColsOpen,
                     },
+                    offers: vec![],
                 });
                 let open = self.seed % 3 == 2;
                 if !open {
@@ -180,7 +181,7 @@ impl Case {
                 for k in 0..self.pre_rows {
                     rows.push(small_row(3, k));
                 }
-                rows.push(RowProg { cells: cells_v, form: RowForm::ColsOpen });
+                rows.push(RowProg { cells: cells_v, form: RowForm::ColsOpen, offers: vec![] });
                 let prog = Program { steps: vec![Step::Set { cols: small_cols(3), rows, end: SetEnd::FinishError { kind: 1105, msg: b"gave up in the middle of a row".to_vec() } }] };
                 (Cmd::Query { text: Blob::text("abandon") }, prog, self.target)
             }
